@@ -54,6 +54,15 @@ CHECKS = {
                 "reader and writer interleave at operation granularity (a reader's single atomic load of the flushed offset is not split); SC atomics.",
         "technique": "Kani/CBMC bounded model checking of the real seglog Reader/Writer over a symbolic file model, differential against a reference reader",
     },
+    "C07": {
+        "text": "Claimed for the gating logic of the two local scan handlers (event lookup was read off as correct and is not encoded; version/sequence queries are outside): bounded model checking of verbatim "
+                "statement ranges of ClusterActor::handle_partition_read_locally and handle_stream_read_locally over a mock iterator that stores ALL events of a small partition log, confirmed or not: for every "
+                "watermark, end and count (symbolic) and every enumerated start / transaction shape (3 single-event transactions, or two 2-event transactions) / stream membership pattern, every returned event has "
+                "partition_sequence < watermark, lies in the requested range and stream, order is increasing, unbounded scans return the whole confirmed suffix and has_more never hides confirmed events.",
+        "note": TB + "the handlers are taken as statement ranges with the single `.await` on next_batch stripped (the whole async handler under kani::block_on did not terminate); mock iterator returns one commit per batch; "
+                "ReplySender records the reply; no native driver exists for these private actor methods (violations are solver counterexamples over the verbatim code).",
+        "technique": "Kani/CBMC bounded model checking of verbatim statement-range slices of the read handlers over a symbolic watermark/request",
+    },
     "C08": {
         "text": "Claimed for the in-memory watermark algorithm (persistence/crash points of the state file are outside): bounded model checking of the verbatim "
                 "PartitionConfirmationState::update_confirmation and AtomicWatermark over every history of up to 4 (quick) / 6 (thorough) confirmation reports "
@@ -144,8 +153,6 @@ NOT_APPLICABLE.update({
     "C04": "not reached: commit matching (SegmentBlock::read_committed_events) decodes bincode RawEvent/RawCommit records through the sierradb crate; no overlay of that crate was built - nothing claimed",
     "C05": "attempted, no verdict: Writer::open's recovery scan is a data-dependent loop (every CRC outcome forks, the resume offset then indexes every buffer); CBMC did not finish one crash cut in 20 min even with the cut, "
            "lengths and start offset concrete (harness kept as harness/seglog/c05.rs, not registered); hydration of the indexes (K2) needs the sierradb indexes - nothing claimed",
-    "C07": "attempted, no verdict: the verbatim handle_partition_read_locally / handle_stream_read_locally slices (async closures on tokio::spawn, run with kani::block_on over a 3-event mock log) did not terminate in 25 min "
-           "even for a fully concrete witness harness (harness kept as harness/c07, not registered); AtomicWatermark::can_read is decided under C08 - nothing else claimed",
     "C19": "not reached: the size estimate is inline in Worker::handle_append_events and needs the bincode-encoded record sizes; no harness built - nothing claimed",
     "C21": "not reached: the command parsers are `combine` parser combinators over heap strings (weak solver target); no harness built - nothing claimed",
 })
